@@ -412,9 +412,16 @@ def _subshell_tables(x):
         return a
     ign_e, keep_e = resolve(args[1]), resolve(args[2])
     jcd = re.findall(r"\blet\s+job_control\s*=\s*([^;]+);", body)
-    if len(jcd) != 1 or "".join(jcd[0].split()) != "env.controls_jobs().then_some(self.job_control).flatten()":
+    # "the job control of the Config, when the shell controls jobs; otherwise none" — the spellings of that
+    # expression a behaviour-preserving rewrite produces; anything else is a loud failure
+    jc_forms = {"env.controls_jobs().then_some(self.job_control).flatten()",
+                "env.controls_jobs().then(||self.job_control).flatten()",
+                "ifenv.controls_jobs(){self.job_control}else{None}",
+                "if!env.controls_jobs(){None}else{self.job_control}",
+                "self.job_control.filter(|_|env.controls_jobs())"}
+    if len(jcd) != 1 or "".join(jcd[0].split()) not in jc_forms:
         x.fail(f"{CONFIG}: `let job_control = …` in Config::start is `{jcd}`; expected "
-               "`env.controls_jobs().then_some(self.job_control).flatten()`")
+               "`env.controls_jobs().then_some(self.job_control).flatten()` or an equivalent spelling the translator knows")
     ign_t = [(f, j, _bool_eval(x, ign_e, f, j, CONFIG)) for f in (False, True) for j in (False, True)]
     keep_t = [(j, _bool_eval(x, keep_e, False, j, CONFIG)) for j in (False, True)]
     if _bool_eval(x, keep_e, True, False, CONFIG) != keep_t[0][1] or _bool_eval(x, keep_e, True, True, CONFIG) != keep_t[1][1]:
@@ -455,6 +462,105 @@ def _split_args(text):
     return [p.strip() for p in parts if p.strip()]
 
 
+IO_RS = "yash-env/src/io.rs"
+PROC_RS = "yash-env/src/system/virtual/process.rs"
+FS_RS = "yash-env/src/system/file_system.rs"
+REDIR_RS = "yash-semantics/src/redir.rs"
+
+
+def _int_lit(x, text, what):
+    t = text.replace("_", "").strip()
+    for pre, base in (("0o", 8), ("0x", 16), ("0b", 2)):
+        if t.startswith(pre):
+            try:
+                return int(t[2:], base)
+            except ValueError:
+                x.fail(f"{what}: `{text}` is not an integer literal")
+    if t.isdigit():
+        return int(t)
+    x.fail(f"{what}: `{text}` is not an integer literal")
+
+
+def _redir_tables(x):
+    """Constants and the order of the system calls of the redirection engine (model: `minInternalFd`, `defaultUmask`,
+    `performRedir`, `openAndOverwrite`, `execRedir` of Fork/Model.lean)."""
+    # --- MIN_INTERNAL_FD
+    io = _nontest(x, IO_RS)
+    m = re.findall(r"\bpub\s+const\s+MIN_INTERNAL_FD\s*:\s*Fd\s*=\s*Fd\s*\(\s*([^)]+?)\s*\)\s*;", io)
+    if len(m) != 1:
+        x.fail(f"{IO_RS}: {len(m)} definitions `pub const MIN_INTERNAL_FD: Fd = Fd(<literal>);` found")
+    min_fd = _int_lit(x, m[0], f"{IO_RS}: MIN_INTERNAL_FD")
+    # --- the umask of a process created from nothing
+    proc = _nontest(x, PROC_RS)
+    fn = [f for f in _functions(x, proc) if f[0] == "with_parent_and_group"]
+    if len(fn) != 1:
+        x.fail(f"{PROC_RS}: {len(fn)} functions `with_parent_and_group`")
+    body = proc[fn[0][3]:fn[0][2]]
+    um = re.findall(r"\bumask\s*:\s*([^,}]+?)\s*[,}]", body) + re.findall(r"\.\s*umask\s*=\s*([^;]+?)\s*;", body)
+    if len(um) != 1:
+        x.fail(f"{PROC_RS}: with_parent_and_group initialises `umask` {len(um)} times")
+    e = "".join(um[0].split())
+    if e in ("Mode::default()", "Default::default()"):
+        fs = _nontest(x, FS_RS)
+        d = re.search(r"impl\s+Default\s+for\s+Mode\s*\{\s*fn\s+default\s*\(\s*\)\s*->\s*(?:Mode|Self)\s*\{\s*(?:Mode|Self)\s*\(\s*([^)]+?)\s*\)\s*\}\s*\}", fs)
+        if not d:
+            x.fail(f"{FS_RS}: `impl Default for Mode {{ fn default() -> Mode {{ Mode(<literal>) }} }}` not found")
+        umask = _int_lit(x, d.group(1), f"{FS_RS}: Mode::default")
+    else:
+        d = re.fullmatch(r"Mode\(([^)]+)\)", e)
+        if not d:
+            x.fail(f"{PROC_RS}: with_parent_and_group: `umask: {um[0]}` not understood")
+        umask = _int_lit(x, d.group(1), f"{PROC_RS}: umask")
+    # --- the engine
+    red = _nontest(x, REDIR_RS)
+    fns = {f[0]: f for f in _functions(x, red) if f[0] in ("perform", "open_and_overwrite", "preserve_redirs")}
+    for n in ("perform", "open_and_overwrite", "preserve_redirs"):
+        if n not in fns:
+            x.fail(f"{REDIR_RS}: fn {n} not found")
+
+    def order(fname, marks):
+        b = red[fns[fname][3]:fns[fname][2]]
+        found = []
+        for name, rx in marks:
+            ms = list(re.finditer(rx, b, re.S))
+            if len(ms) != 1:
+                x.fail(f"{REDIR_RS}: fn {fname} mentions `{name}` {len(ms)} times, once expected")
+            found.append((ms[0].start(), name))
+        return [n for _, n in sorted(found)], b
+    perform_order, pb = order("perform", [
+        ("is_cloexec_target", r"\bis_cloexec\s*\(\s*env\s*,\s*target_fd\s*\)"),
+        ("dup_save", r"\.\s*dup\s*\(\s*target_fd\s*,"),
+        ("open_and_overwrite", r"\bopen_and_overwrite\s*\("),
+        ("close_save_on_error", r"\.\s*close\s*\(\s*save\s*\)"),
+    ])
+    d = re.search(r"\.\s*dup\s*\(", pb)
+    depth, j = 0, d.end() - 1
+    while j < len(pb):
+        depth += pb[j] == "("
+        depth -= pb[j] == ")"
+        if depth == 0:
+            break
+        j += 1
+    dargs = _split_args(pb[d.end():j])
+    if len(dargs) != 3:
+        x.fail(f"{REDIR_RS}: perform: the saving dup has {len(dargs)} arguments")
+    save_min = "".join(dargs[1].split())
+    save_flags = "".join(dargs[2].split())
+    if save_min != "MIN_INTERNAL_FD":
+        x.fail(f"{REDIR_RS}: perform saves the target with dup(target_fd, {save_min}, …); MIN_INTERNAL_FD expected")
+    if save_flags not in ("FdFlag::CloseOnExec.into()", "EnumSet::only(FdFlag::CloseOnExec)", "FdFlag::CloseOnExec"):
+        x.fail(f"{REDIR_RS}: perform saves the target with flags `{save_flags}`; CloseOnExec expected")
+    ebadf = re.search(r"Err\s*\(\s*Errno::EBADF\s*\)\s*=>\s*None", pb) is not None
+    overwrite_order, _ = order("open_and_overwrite", [
+        ("dup2", r"\.\s*dup2\s*\(\s*fd\s*,\s*target_fd\s*\)"),
+        ("close_spec", r"\bfd_spec\s*\.\s*close\s*\("),
+        ("close_target", r"\.\s*close\s*\(\s*target_fd\s*\)"),
+    ])
+    pres = red[fns["preserve_redirs"][3]:fns["preserve_redirs"][2]]
+    preserve_closes_save = len(re.findall(r"\.\s*close\s*\(\s*save\s*\)", pres)) == 1 and "dup2" not in pres
+    return min_fd, umask, perform_order, ebadf, overwrite_order, preserve_closes_save
+
+
 _fork_system_writes = fork_system
 
 
@@ -492,6 +598,20 @@ def fork_system_all(x):
             + ", ".join(f"({b(j)}, {b(v)})" for j, v in keep_t) + "]\n")
     out += ("\n/-- the order of the steps of the child task of `Config::start` -/\n"
             "def childPrologue : List String :=\n  [" + ", ".join(ls(n) for n in order) + "]\n")
+    min_fd, umask, perform_order, ebadf, overwrite_order, preserve = _redir_tables(x)
+    out += ("\n/-- `yash_env::io::MIN_INTERNAL_FD` (yash-env/src/io.rs) -/\n"
+            f"def minInternalFd : Nat := {min_fd}\n")
+    out += ("\n/-- the umask of `Process::with_parent_and_group` (resolved through `impl Default for Mode`), in octal -/\n"
+            f"def freshUmask : String := {ls(format(umask, 'o'))}\n")
+    out += ("\n/-- yash-semantics/src/redir.rs `perform`: the order of its steps; the target is saved with\n"
+            "    `dup(target_fd, MIN_INTERNAL_FD, CloseOnExec)` (checked by the translator) -/\n"
+            "def performOrder : List String :=\n  [" + ", ".join(ls(n) for n in perform_order) + "]\n")
+    out += ("\n/-- `perform`: `Err(Errno::EBADF)` of the saving `dup` means \"nothing to save\" -/\n"
+            f"def saveEbadfIsNone : Bool := {b(ebadf)}\n")
+    out += ("\n/-- `open_and_overwrite`: the order of `dup2(fd, target_fd)`, `fd_spec.close(…)` and (closed spec) `close(target_fd)` -/\n"
+            "def overwriteOrder : List String :=\n  [" + ", ".join(ls(n) for n in overwrite_order) + "]\n")
+    out += ("\n/-- `RedirGuard::preserve_redirs` closes every saved copy and restores nothing -/\n"
+            f"def preserveClosesSave : Bool := {b(preserve)}\n")
     real_write("ForkSystem", out)
 
 
